@@ -382,6 +382,7 @@ func yamlTags(p *Prog, pkg, name string) map[string]bool {
 }
 
 func runC01(c *Ctx) {
+	defer c01TemplateAlwaysParsed(c)
 	defer checkParamsUsed(c, "C01-R1", "internal/parser.NewParser")
 	p := c.P
 	c.Rule("C01-R1", "strict key tables are subsets of the vendored rulefmt yaml tags; defaults reject", 17)
@@ -1064,4 +1065,44 @@ func c01Schema(c *Ctx) {
 	})
 	c.Check(bad == "" && nThanos == 1 && nProm >= 1, "C01-R5", "parseSchema:Thanos schema only for the configured word `thanos`", fi.Decl.Pos(), "everything else is the Prometheus schema",
 		"the parser schema is chosen differently ("+bad+"): with the default (empty) setting files are parsed with the Thanos schema, which accepts `partial_response_strategy`, a key Prometheus rejects as unknown")
+}
+
+// c01TemplateAlwaysParsed: every label and annotation value is handed to the
+// Prometheus template parser, whatever it looks like: in checkTemplateSyntax
+// no return is reachable without the expander's ParseTest() call. A shortcut
+// for "plain strings" decides with its own idea of what a template is, and a
+// value such as `{{ $labels.instance is down` (Prometheus: unclosed action)
+// passes pint.
+func c01TemplateAlwaysParsed(c *Ctx) {
+	fi := c.MustFunc("C01-R4", "internal/checks.checkTemplateSyntax")
+	if fi == nil {
+		return
+	}
+	info := fi.Pkg.TypesInfo
+	fl := c.P.NewFlow(fi)
+	isParse := func(n ast.Node) bool {
+		found := false
+		inspectNoLit(n, func(m ast.Node) bool {
+			if call, ok := m.(*ast.CallExpr); ok {
+				if fn := Callee(info, call); fn != nil && fn.Name() == "ParseTest" && fn.Pkg() != nil && strings.HasSuffix(fn.Pkg().Path(), "prometheus/template") {
+					found = true
+				}
+			}
+			return true
+		})
+		return found
+	}
+	rets := fl.Find(func(n ast.Node) bool { _, ok := n.(*ast.ReturnStmt); return ok })
+	bad := ""
+	for _, r := range rets {
+		target := r.Site
+		if isParse(r.Inner) {
+			continue
+		}
+		if ok, _ := fl.MustPass(fl.Entry(), func(s Site) bool { return s == target }, false, isParse); !ok {
+			bad = c.P.Pos(r.Inner.Pos())
+		}
+	}
+	c.Check(len(rets) >= 1 && bad == "", "C01-R4", "checkTemplateSyntax:every value goes through the Prometheus template parser", fi.Decl.Pos(), itoa(len(rets))+" return(s), all after ParseTest()",
+		"checkTemplateSyntax can return at "+bad+" without having called the template expander's ParseTest(): some label or annotation values are declared fine by pint's own test, and a value that Prometheus refuses (unclosed action, bad operand) passes")
 }
